@@ -572,7 +572,8 @@ def extra_scenarios(ctx, rng):
                     a = cls(pk)
                     objs = pk + other
                     base = [sys.getrefcount(objs[ix]) for ix in range(len(objs))]
-                    held0 = [sum(1 for x in a if x is objs[ix]) for ix in range(len(objs))]
+                    w0 = slots(a, True, True, False)
+                    held0 = [w0.get(id(objs[ix]), 0) for ix in range(len(objs))]
                     RK.fail = [failing, 0] if failing else [None, 0]
                     try:
                         if opname == "isub":
@@ -589,7 +590,9 @@ def extra_scenarios(ctx, rng):
                         pass
                     finally:
                         RK.fail = [None, 0]
-                    held1 = [sum(1 for x in a if x is objs[ix]) for ix in range(len(objs))]
+                    w1 = slots(a, True, True, False)
+                    held1 = [w1.get(id(objs[ix]), 0) for ix in range(len(objs))]
+                    w0 = w1 = None
                     now = [sys.getrefcount(objs[ix]) for ix in range(len(objs))]
                     nE += 1
                     ctx.count(("inplace-failing", kind, opname, failing))
